@@ -97,6 +97,7 @@ type vLine struct {
 	RelH  int64             `json:"relh"`
 	Type  string            `json:"type,omitempty"`
 	Opener string           `json:"opener,omitempty"`
+	Dust   map[string]int64  `json:"dust,omitempty"`
 	File  string            `json:"file,omitempty"`
 }
 
@@ -152,6 +153,17 @@ func vProjectCommit(lc *LightningChannel, c *commitment) vCommit {
 	less := func(s [][2]int64) func(i, j int) bool { return func(i, j int) bool { return s[i][0] < s[j][0] } }
 	sort.Slice(p.Outs, less(p.Outs))
 	sort.Slice(p.Ins, less(p.Ins))
+	for _, hs := range [][]paymentDescriptor{c.outgoingHTLCs, c.incomingHTLCs} {
+		for i := range hs {
+			idx := hs[i].remoteOutputIndex
+			if c.whoseCommit.IsLocal() {
+				idx = hs[i].localOutputIndex
+			}
+			if idx >= 0 {
+				p.NHtlc++
+			}
+		}
+	}
 	if c.txn != nil {
 		for _, o := range c.txn.TxOut {
 			p.TxOut += o.Value
@@ -300,6 +312,9 @@ func TestVerifChannelExec(t *testing.T) {
 		npre := 0
 
 		out.Emit(vLine{vEv: vEv{A: "Reset", P: "A"}, Type: tname, Opener: opener, File: filepath.Base(f),
+			Dust: map[string]int64{
+				opener:    int64(alice.channelState.LocalChanCfg.DustLimit),
+				nonOpener: int64(bob.channelState.LocalChanCfg.DustLimit)},
 			St: map[string]vParty{}, Sh: map[string]vParty{}, SigOk: map[string]int{}})
 
 		for _, e := range evs[1:] {
